@@ -10,7 +10,7 @@ def nontrivial(prog, f):
 
 SPEC = streamcheck.StreamSpec(
     PROP, probes=['C05', 'C02m'],
-    cfg=progs.GenConfig(static_durations=True, n_cmds=(6, 40), p_list=0.0, p_sub=0.16, p_copy=0.08, p_apply=0.06, p_flatten=0.03,
+    cfg=progs.GenConfig(static_durations=True, n_cmds=(6, 40), p_list=0.0, p_sub=0.16, p_copy=0.08, p_apply=0.06, p_flatten=0.03, p_newrel=0.12,
                         p_gdur=0.0, p_setreg=0.02, p_rel=0.5),
     n_quick=1200, n_thorough=40000,
     nontrivial=nontrivial,
